@@ -122,3 +122,24 @@ func (b *B4) GoodAddEnum(k *node) error {
 	b.root.kids = append(b.root.kids, k)
 	return nil
 }
+
+// ---- FRESHROOT: re-initialising must not recycle the slices of the root that was handed out
+
+type B5 struct {
+	root *node
+	reg  []*node
+}
+
+func (b *B5) BadInitKeepsSlices() {
+	r := &node{}
+	if b.root != nil {
+		r.kids = b.root.kids[:0]
+	}
+	b.root = r
+	b.reg = b.reg[:0]
+}
+
+func (b *B5) GoodInit() {
+	b.root = &node{kids: make([]*node, 0, 4)}
+	b.reg = b.reg[:0]
+}
